@@ -378,6 +378,25 @@ pub fn check_log(h: &Hist, info: &SchedInfo) -> Result<(bool, Vec<&'static str>)
         let Op::LockHeldAtEmission { which } = &log[i] else { unreachable!() };
         return Err(failure("shared-lock-held-across-emission", format!("the state machine is suspended in an emission (the observer has just taken an event) while it holds the lock of the shared {which}: a consumer that locks it before polling again deadlocks the flow"), h, Some((i.saturating_sub(8), (i + 3).min(log.len())))));
     }
+    // exactly once: the flow never announces the same state twice in a row (every check runs Checking -> outcome ->
+    // [WaitingForReboot] -> Idle), so two identical consecutive state events are one emission delivered twice
+    {
+        let mut last: Option<(usize, &StateView)> = None;
+        for (i, o) in log.iter().enumerate() {
+            match o {
+                Op::Build { .. } => last = None,
+                Op::Took(EventView::State(st)) => {
+                    if let Some((j, prev)) = last {
+                        if prev == st {
+                            return Err(failure("state-delivered-twice", format!("the observer received the state {st:?} twice in a row (log positions {j} and {i}): one emission, delivered twice"), h, Some((j.saturating_sub(4), (i + 3).min(log.len())))));
+                        }
+                    }
+                    last = Some((i, st));
+                }
+                _ => {}
+            }
+        }
+    }
     let segs = crate::model::checks(log);
     for s in &segs {
         let around = Some((s.start.saturating_sub(2), (s.end + 2).min(log.len())));
@@ -470,7 +489,7 @@ fn case_machine(t: &mut Tape, ctx: &CaseCtx) -> CaseResult {
     if t.chance(1, 3) {
         return case_machine_eager(t, ctx);
     }
-    let p = SchedProfile { requests_w: 1, drop_machine: false, offer: (5, 6), min_wait: (1, 6), ..Default::default() };
+    let p = SchedProfile { requests_w: 2, drop_machine: false, offer: (5, 6), min_wait: (1, 6), ..Default::default() };
     let (h, info) = run_scheduled(t, &p);
     let (nontrivial, mut classes) = check_log(&h, &info)?;
     classes.push("state_machine");
